@@ -15,7 +15,13 @@ MaxLen(g) == LET L == {Len(g.tr[s]) : s \in States(g)} IN CHOOSE m \in L : \A x 
 \* (transitions of one state with the same target are the same choice: only the
 \* first of each target is enumerated)
 Reps(g, s) == {j \in DOMAIN g.tr[s] : \A i \in 1..(j - 1) : g.tr[s][i].t # g.tr[s][j].t}
-ChoiceSets(g, S) == {c \in [S -> 1..MaxLen(g)] : \A s \in S : c[s] \in Reps(g, s)}
+\* (built as a product, state by state: enumerating [S -> 1..MaxLen] and filtering is
+\* exponential in the number of single-action states)
+RECURSIVE ChoiceSets(_, _)
+ChoiceSets(g, S) ==
+    IF S = {} THEN {[x \in {} |-> 0]}
+    ELSE LET s == CHOOSE s \in S : TRUE
+         IN  {c @@ (s :> k) : c \in ChoiceSets(g, S \ {s}), k \in Reps(g, s)}
 Movers(g, o, Dom) == {s \in Dom : g.owner[s] = o /\ Len(g.tr[s]) > 0}
 
 \* the row of the Markov chain induced by choice c
